@@ -3,15 +3,18 @@
 # confirms in a fresh scratch worktree of /repo HEAD: patch applies, demo passes without / fails with, suite passes with the change
 set -u
 ID="$1"; PROP="$2"; SRC="$3"
+# demos written by the seeding agents sometimes assert that miros is imported from the agent's own worktree: neutralise that line
+DEMO=$(mktemp /tmp/confirm_demo_XXXX.py)
+sed -E 's#^assert miros.__file__.startswith\(.*$#pass  \# (worktree path assertion of the original demo removed)#' "$SRC/demo.py" > "$DEMO"
 WT=$(mktemp -d /tmp/confirm_XXXX)
 git -C /repo worktree add -q --detach "$WT" HEAD || exit 3
 cd "$WT"
 echo "== demo on unmodified tree"
-( cd "$WT" && PYTHONPATH="$WT" timeout 120 /venv/bin/python "$SRC/demo.py" >/tmp/confirm_demo0.log 2>&1 ); RC0=$?
+( cd "$WT" && PYTHONPATH="$WT" timeout 120 /venv/bin/python "$DEMO" >/tmp/confirm_demo0.log 2>&1 ); RC0=$?
 echo "rc=$RC0"
 if ! git apply "$SRC/patch.diff" 2>/dev/null; then git apply --3way "$SRC/patch.diff" || { echo "patch does not apply"; git -C /repo worktree remove --force "$WT"; exit 4; }; fi
 echo "== demo on modified tree"
-( cd "$WT" && PYTHONPATH="$WT" timeout 120 /venv/bin/python "$SRC/demo.py" >/tmp/confirm_demo1.log 2>&1 ); RC1=$?
+( cd "$WT" && PYTHONPATH="$WT" timeout 120 /venv/bin/python "$DEMO" >/tmp/confirm_demo1.log 2>&1 ); RC1=$?
 echo "rc=$RC1"
 echo "== suite on modified tree"
 ( cd "$WT" && PYTHONPATH="$WT" /venv/bin/python -m pytest -q -p no:cacheprovider --timeout=900 2>&1 | tail -3 ) > /tmp/confirm_suite.log
@@ -22,10 +25,11 @@ git -C /repo worktree remove --force "$WT"
 if [ $RC0 -eq 0 ] && [ $RC1 -ne 0 ] && [ $FAILED -eq 0 ]; then
   mkdir -p /verif/seeded/$ID
   cp "$SRC/patch.diff" /verif/seeded/$ID/patch.diff
-  cp "$SRC/demo.py" /verif/seeded/$ID/demo.py
+  cp "$DEMO" /verif/seeded/$ID/demo.py
   [ -f "$SRC/notes.md" ] && cp "$SRC/notes.md" /verif/seeded/$ID/notes.md
   echo "CONFIRMED $ID (demo rc $RC0 -> $RC1; suite: $SUITE)"
   echo "$RC0 $RC1 $SUITE" > /verif/seeded/$ID/.confirm
 else
   echo "NOT CONFIRMED $ID (demo rc $RC0 -> $RC1; other failures $FAILED; suite: $SUITE)"
 fi
+rm -f "$DEMO"
